@@ -188,6 +188,19 @@ def callee_must_notify(la, g, cv_key):
     return ok
 
 
+def simple_cond(c):
+    """(field key, negated) for a condition of the shape  x.f  /  !x.f ,
+    else (None, False)."""
+    c = ir.strip(c)
+    neg = False
+    while isinstance(c, dict) and c.get("k") == "un" and c.get("op") == "!":
+        neg = not neg
+        c = ir.strip(c["e"])
+    if isinstance(c, dict) and c.get("k") == "mem":
+        return obj_key(c), neg
+    return None, False
+
+
 def may_falsify(cond_node, stay_on, a):
     """Polarity: can the store `a` make the waiter's predicate conjunct false
     (i.e. is a wake-up needed)?  Only the simplest shapes are decided; anything
